@@ -738,7 +738,11 @@ func (cfg *Config) wordFields(wps []syntax.WordPart) ([][]fieldPart, error) {
 				curField = append(curField, part)
 			}
 		case *syntax.ParamExp:
-			if elems, ok := cfg.unquotedElemFields(wp); ok {
+			elems, ok, err := cfg.unquotedElemFields(wp)
+			if err != nil {
+				return nil, err
+			}
+			if ok {
 				// Unquoted "*" or "@" expansions produce one field per
 				// element; joining and re-splitting them would lose
 				// fields when IFS is empty.
@@ -799,34 +803,36 @@ func (cfg *Config) wordFields(wps []syntax.WordPart) ([][]fieldPart, error) {
 // listElems returns the elements of a "*" or "@" expansion of a list, like
 // $@ or ${arr[*]}, with star set for the "*" forms which join into a single
 // field when quoted. ok is false for any other parameter expansion.
-func (cfg *Config) listElems(pe *syntax.ParamExp) (elems []string, star, ok bool) {
+func (cfg *Config) listElems(pe *syntax.ParamExp) (elems []string, star, ok bool, err error) {
 	if pe.Param == nil { // e.g. zsh's ${}; paramExp rejects it
-		return nil, false, false
+		return nil, false, false, nil
 	}
 	switch name := pe.Param.Value; name {
 	case "*", "@":
-		return cfg.sliceElems(pe, cfg.Env.Get(name).List, nil, true), name == "*", true
+		elems, err = cfg.sliceElems(pe, cfg.Env.Get(name).List, nil, true)
+		return elems, name == "*", true, err
 	}
 	switch lit := nodeLit(pe.Index); lit {
 	case "@", "*":
 		switch vr := cfg.Env.Get(pe.Param.Value); vr.Kind {
 		case Indexed:
-			return cfg.sliceElems(pe, vr.List, vr.Indexes, false), lit == "*", true
+			elems, err = cfg.sliceElems(pe, vr.List, vr.Indexes, false)
+			return elems, lit == "*", true, err
 		case Associative:
-			return slices.Sorted(maps.Values(vr.Map)), lit == "*", true
+			return slices.Sorted(maps.Values(vr.Map)), lit == "*", true, nil
 		}
 	}
-	return nil, false, false
+	return nil, false, false, nil
 }
 
 // unquotedElemFields returns the elements of an unquoted "*" or "@" list
 // expansion like $* or ${foo[@]}; ok is false for any other expansion.
-func (cfg *Config) unquotedElemFields(pe *syntax.ParamExp) ([]string, bool) {
+func (cfg *Config) unquotedElemFields(pe *syntax.ParamExp) ([]string, bool, error) {
 	if pe.Excl || pe.Length || pe.Width || pe.IsSet || pe.Repl != nil || pe.Exp != nil {
-		return nil, false
+		return nil, false, nil
 	}
-	elems, _, ok := cfg.listElems(pe)
-	return elems, ok
+	elems, _, ok, err := cfg.listElems(pe)
+	return elems, ok, err
 }
 
 // quotedElemFields returns the list of elements resulting from a quoted
@@ -869,7 +875,11 @@ func (cfg *Config) quotedElemFields(pe *syntax.ParamExp) ([]string, error) {
 		}
 		return nil, nil
 	}
-	if elems, star, ok := cfg.listElems(pe); ok {
+	elems, star, ok, err := cfg.listElems(pe)
+	if err != nil {
+		return nil, err
+	}
+	if ok {
 		// Operators like "${foo[@]#prefix}" apply to each element.
 		elems, err := cfg.perElemOps(pe, elems)
 		if err != nil {
@@ -894,53 +904,57 @@ func (cfg *Config) quotedElemFields(pe *syntax.ParamExp) ([]string, error) {
 // count from $# + 1, so $0 is reachable via large enough negative values.
 // A non-nil indexes records the index of each element in a sparse array;
 // see [Variable.Indexes].
-func (cfg *Config) sliceElems(pe *syntax.ParamExp, elems []string, indexes []int, positional bool) []string {
+func (cfg *Config) sliceElems(pe *syntax.ParamExp, elems []string, indexes []int, positional bool) ([]string, error) {
 	if pe.Slice == nil {
-		return elems
+		return elems, nil
 	}
 	if positional {
 		elems = append([]string{cfg.Env.Get("0").Str}, elems...)
 	}
-	slicePos := func(n int) int {
-		if n < 0 {
-			n = len(elems) + n
-			if n < 0 {
-				n = len(elems)
-			}
-		} else if n > len(elems) {
-			n = len(elems)
-		}
-		return n
-	}
 	if pe.Slice.Offset != nil {
 		offset, err := Arithm(cfg, pe.Slice.Offset)
 		if err != nil {
-			return elems
+			return elems, nil
 		}
+		// Arrays slice by index: a negative offset counts from one past the
+		// maximum index, and the result begins with the first element whose
+		// index is at least the offset.
+		maxIndex := len(elems) - 1
 		if len(indexes) > 0 {
-			// Sparse arrays slice by index: a negative offset counts
-			// from one past the maximum index, and the result begins
-			// with the first element whose index is at least the offset.
-			if offset < 0 {
-				offset += indexes[len(indexes)-1] + 1
-				if offset < 0 {
-					offset = indexes[len(indexes)-1] + 1
-				}
-			}
-			pos, _ := slices.BinarySearch(indexes, offset)
-			elems = elems[pos:]
-		} else {
-			elems = elems[slicePos(offset):]
+			maxIndex = indexes[len(indexes)-1]
 		}
+		if offset < 0 {
+			offset += maxIndex + 1
+		}
+		// An offset outside of the array expands to nothing, whatever the
+		// length is; $@ may start right after the last parameter.
+		limit := maxIndex
+		if positional {
+			limit = maxIndex + 1
+		}
+		if offset < 0 || offset > limit {
+			return []string{}, nil
+		}
+		pos := offset
+		if len(indexes) > 0 {
+			pos, _ = slices.BinarySearch(indexes, offset)
+		}
+		elems = elems[pos:]
 	}
 	if pe.Slice.Length != nil {
 		length, err := Arithm(cfg, pe.Slice.Length)
 		if err != nil {
-			return elems
+			return elems, nil
 		}
-		elems = elems[:slicePos(length)]
+		if length < 0 {
+			return nil, fmt.Errorf("%d: substring expression < 0", length)
+		}
+		if length > len(elems) {
+			length = len(elems)
+		}
+		elems = elems[:length]
 	}
-	return elems
+	return elems, nil
 }
 
 func (cfg *Config) expandUser(field string, moreFields bool) (prefix, rest string) {
